@@ -336,6 +336,11 @@ class RealEngine(Engine):
                 # x * Inf = Inf
                 s = _signbit(x) != _signbit(y)
                 return Float(s=s, isinf=True, ctx=REAL)
+        elif (isinstance(x, Float) and x.is_zero()) or (isinstance(y, Float) and y.is_zero()):
+            # 0 * y = 0; the separate case keeps the sign of a zero operand,
+            # which the rational product below cannot carry
+            s = _signbit(x) != _signbit(y)
+            return Float(s=s, c=0, ctx=REAL)
         else:
             # both are finite
             match x, y:
